@@ -176,12 +176,16 @@ class Gen:
                 cands.append(("colrange", m))
             if n1 == n2 and n1 > n:
                 cands.append(("diagrange", m))
+            if n1 * n2 == n and n > 0:
+                cands.append(("tovec", m))
         if not cands:
             return None
         how, v = r.choice(cands)
         b = v.expr()
         if how == "var":
             return b
+        if how == "tovec":
+            return self.mk_tovec(b)
         if how == "rowrange":
             s0 = r.range(0, v.shape[1] - n)
             return self.mk_range(self.mk_row(b, r.below(v.shape[0])), s0, s0 + n)
@@ -275,6 +279,14 @@ class Gen:
         return E("V", m.shape[0], f"(diag {m.txt})", f"diag({m.cpp})", f"o_diag({m.orc})",
                  m.bound, m.dexp, m.reads, self.K("diag", m.cls), m.place, self._p(m, "p_diag"),
                  m.elementwise, m.depth + 1, m.ops + ("diag",))
+
+    def mk_tovec(self, m):
+        """to_vector(container): linearisation in storage order (row-major for A, column-major for B)"""
+        if m.ops != () or not m.place:
+            raise Unsupported("to_vector of a non-container")
+        kind, k = m.txt[1], m.txt[3:-1]
+        return E("V", m.shape[0] * m.shape[1], f"(tovec {m.txt})", f"to_vector({m.cpp})", f"o_tovec{kind}(S,{k})",
+                 m.bound, m.dexp, m.reads, DENSE, True, f"p_tovec{kind}(X,{k})", True, 1, ("tovec",))
 
     def mk_trans(self, m):
         return E("M", (m.shape[1], m.shape[0]), f"(trans {m.txt})", f"trans({m.cpp})", f"o_trans({m.orc})",
@@ -649,6 +661,9 @@ class Gen:
         for _ in range(50):
             if r.chance(1, 2):
                 n = self.dim() if r.chance(2, 3) else r.choice([v.shape for v in self.vvars()])
+                if r.chance(1, 10):
+                    mv = r.choice(self.mvars())
+                    n = mv.shape[0] * mv.shape[1]
                 p = self.place_v(n)
             else:
                 sh = r.choice([m.shape for m in self.mvars()])
@@ -667,7 +682,9 @@ class Gen:
         sm = [v for v in self.sparse if v.kind == "C"][0]
         s0 = r.choice(sv)
         n = s0.shape
-        how = r.below(5)
+        how = r.below(12)
+        if how >= 9:
+            return self.sparse_matrix_statement(k, sm)
         if how == 0:
             e = s0.expr()
         elif how == 1:
@@ -678,8 +695,21 @@ class Gen:
         elif how == 3:
             n = sm.shape[1]
             e = self.mk_vm(self.gen_v(sm.shape[0], 1), sm.expr())
-        else:
+        elif how == 4:
             e = self.mk_add(s0.expr(), self.gen_v(n, 1))
+        elif how == 5:
+            e = self.un("V", r.choice(["abs", "sqr", "neg"]), s0.expr())
+        elif how == 6:
+            e = self.bin("V", "mul", s0.expr(), self.gen_v(n, 1)) if r.chance(1, 2) else \
+                self.bin("V", "mul", self.gen_v(n, 1), s0.expr())
+        elif how == 7:
+            if sm.shape[0] == 0:
+                return None
+            n = sm.shape[1]
+            e = self.mk_row(sm.expr(), r.below(sm.shape[0]))
+        else:
+            n = sm.shape[0]
+            e = self.mk_sumrows(sm.expr())
         t = None
         for _ in range(20):
             t = self.place_v(n)
@@ -699,10 +729,43 @@ class Gen:
             return None
         return self.render_statement(k, fname, t, e)
 
+    def sparse_matrix_statement(self, k, sm):
+        """dense matrix target <- sparse matrix expression (plain / additive forms)"""
+        r = self.r
+        how = r.below(4)
+        if how == 0:
+            e = sm.expr()
+        elif how == 1:
+            e = self.mk_smul(self.const(), sm.expr())
+        elif how == 2:
+            e = self.mk_add(sm.expr(), self.gen_m(sm.shape[0], sm.shape[1], 1))
+        else:
+            e = self.un("M", r.choice(["abs", "neg"]), sm.expr())
+        t = None
+        for _ in range(20):
+            t = self.place_m(sm.shape[0], sm.shape[1])
+            if t is not None and not (t.reads & e.reads):
+                break
+            t = None
+        if t is None or e.bits() > MAXBITS - 8:
+            return None
+        base = [v for v in self.vars if v.name in t.reads][0]
+        form = r.choice(["set", "plus", "minus", "set"])
+        fname = ("na_" if r.chance(1, 3) else "") + form
+        if form == "set":
+            base.bound, base.dexp = max(base.bound << max(0, e.dexp - base.dexp), e.bound << max(0, base.dexp - e.dexp)), max(base.dexp, e.dexp)
+        else:
+            base.bound, base.dexp = (base.bound << max(0, e.dexp - base.dexp)) + (e.bound << max(0, base.dexp - e.dexp)), max(base.dexp, e.dexp)
+        if max(1, base.bound).bit_length() + base.dexp > MAXBITS:
+            return None
+        return self.render_statement(k, fname, t, e)
+
     def sparse_reduction(self, k):
         r = self.r
         s0 = r.choice([v for v in self.sparse if v.kind == "s"])
-        kind = r.choice(["sum", "norm_1", "inner_prod", "norm_sqr"])
+        kind = r.choice(["sum", "norm_1", "inner_prod", "norm_sqr", "msum"])
+        if kind == "msum":
+            return self.render_reduction(k, "msum", [[v for v in self.sparse if v.kind == "C"][0].expr()])
         args = [s0.expr()]
         if kind == "inner_prod":
             args.append(self.gen_v(s0.shape, 1))
@@ -961,6 +1024,7 @@ class CorpusGen(Gen):
         if h == "row": return self.mk_row(B(a[0]), int(a[1]))
         if h == "col": return self.mk_col(B(a[0]), int(a[1]))
         if h == "diag": return self.mk_diag(B(a[0]))
+        if h == "tovec": return self.mk_tovec(B(a[0]))
         if h == "trans": return self.mk_trans(B(a[0]))
         if h == "mrange": return self.mk_mrange(B(a[0]), *map(int, a[1:5]))
         if h == "rows": return self.mk_rows(B(a[0]), int(a[1]), int(a[2]))
